@@ -492,6 +492,14 @@ def _norm1(e, ctx):
                         not (k_ == 'reset_less' and v_ == ('const', False)))
             if tuple(a2) != args or kw2 != kwargs:
                 return ('call', fn, tuple(a2), kw2)
+        if fn in (('name', 'max'), ('name', 'min')) and len(args) >= 2 and not kwargs and not any(a[0] == 'star' for a in args):
+            srt = tuple(sorted(args, key=_sort_key))
+            if srt != args:
+                return ('call', fn, srt, kwargs)
+        if fn[0] == 'attr' and fn[2] in ('any', 'bool') and not args and not kwargs:
+            return ('cmp', '!=', fn[1], ('const', 0))          # x.any() == x.bool() == (x != 0)
+        if fn == ('name', 'isinstance') and len(args) == 2 and args[1][0] == 'tuple' and args[1][1] and not kwargs:
+            return ('or', tuple(('call', fn, (args[0], t_), ()) for t_ in args[1][1]))
         if fn == ('name', 'hasattr') and len(args) == 2 and args[1][0] == 'const':
             return ('has', args[0], args[1][1])
         if fn == ('name', 'getattr') and len(args) == 2 and args[1][0] == 'const' and isinstance(args[1][1], str) and not kwargs:
@@ -635,6 +643,10 @@ def _norm1(e, ctx):
             if b[0] == 'const' and isinstance(b[1], int) and not isinstance(b[1], bool):
                 c, d = _to_lin(a)
                 return _from_lin(b[1] * c, {t: b[1] * v for t, v in d.items()})
+            # (x // y) * y  ==  x - x % y
+            for q, y in ((a, b), (b, a)):
+                if q[0] == 'bin' and q[1] == '//' and q[3] == y:
+                    return _from_lin(0, {q[2]: 1, ('bin', '%', q[2], y): -1})
             return _mk_nary('*', (a, b))
         if op in COMM:
             return _mk_nary(op, (a, b))
@@ -720,6 +732,12 @@ def _norm1(e, ctx):
             return e[3]
         if e[2] == e[3]:
             return e[2]
+        # a if a > b else b  /  b if a < b else a  ==  max(a, b);  a if a < b else b == min(a, b)
+        c_ = e[1]
+        if c_[0] == 'cmp' and c_[1] == '<' and {c_[2], c_[3]} == {e[2], e[3]} and e[2] != e[3]:
+            fn = 'min' if e[2] == c_[2] else 'max'
+            args = tuple(sorted((e[2], e[3]), key=_sort_key))
+            return ('call', ('name', fn), args, ())
         return None
     if k == 'gen':
         # alpha-rename bound variables
